@@ -240,6 +240,30 @@ def run(M, rep, tier, only=None):
 
     # ---------------------------------------------------------------- R8
     n = stateless.run(M, rep, R8, only_classes={"DataFrame", "H5DataSet"}, only_modules={"nixio.hdf5.h5dataset", "nixio.data_frame"})
+    R11 = rep.rule("C16.R11", "column types inferred from the first row are the cells' own types (no widening value-class inference)", floor=1,
+                   technique="terms collected into the column-type list on all abstract paths of create_data_frame")
+    c11_ = Ctx(M, coarse=False)
+    c11_.cfg.compose = False
+    f11 = c11_.member("Block", "create_data_frame")
+    if f11 is None:
+        rep.bad(R11, "Block.create_data_frame", "required mechanism not found")
+    else:
+        bad11 = None
+        n11 = 0
+        for p in c11_.paths(f11, "Block", max_paths=60000):
+            for e in p.events:
+                if e.kind == "local" and e.op in ("list.append", "list.extend") and e.args:
+                    a = e.args[0].t
+                    cell = any(x and x[0] == "elem" and "data" in params_of(x) for x in subterms(a))
+                    if not cell:
+                        continue
+                    n11 += 1
+                    if not (a[0] == "call" and a[1] == "type"):
+                        bad11 = (p, show(a)[:120])
+        rep.check(R11, "Block.create_data_frame/inferred column types", bad11 is None and n11 > 0,
+                  "the type of a column inferred from the first row is %s, not the cell's own type: integer widths, signedness and float32 "
+                  "are replaced by the value class's default type" % (bad11[1] if bad11 else "never taken from the cells"),
+                  site=f11.file + ":%d" % f11.node.lineno, detail=describe_path(bad11[0], 30) if bad11 else None)
     R10 = rep.rule("C16.R10", "a write addressed to row 0 is a row write: the hdf5 layer decides 'no region given' by identity with None",
                    floor=2, technique="decision atoms on the region parameter of H5DataSet.read_data/write_data (shared with C06.R1)")
     from . import c06
